@@ -6,6 +6,15 @@
   Where the pinned code violates it, `…_counterexample : ¬ …_Full` exhibits the witness of the
   findings entry (evaluated by the kernel with `rfl`; the same witness is replayed on the real code
   on every run), and `…_partial` proves the clause on an explicitly delimited fragment.
+
+  Delimiting predicates (all decidable, defined next to their proofs):
+  * `frag` (PgProofs/Typing.lean) — idempotence / default: leaves, lists, tuples, schema-less dict;
+    `simpleUnion` + `fragList` (PgProofs/TypingUnion.lean) — unions of such leaves;
+  * `CompatOk a b` (PgProofs/TypingCompat.lean) — `C04_compat_partial`, mutual induction on `a`;
+    `CompatOkUnion cands f b` (PgProofs/TypingUnion.lean) — `C04_compat_partial_union`;
+  * `ExtOk child base` (PgProofs/TypingExtend.lean) — `C04_extend_partial`: the extension lands in
+    `CompatOk base c'` with `isCompatible base c'`, containment then follows from compatibility.
+  `C04_*_exclusion_*` show, conjunct by conjunct, that the predicates exclude nothing gratuitous.
 -/
 import PgProofs.Typing
 import PgProofs.TypingExtend
